@@ -283,7 +283,7 @@ def ref_apply(env, rec, state, op):
             return SKIP
         b = copy.deepcopy(st[n])
         if args:
-            b = args[0](b)
+            b = copy.deepcopy(args[0](b))  # (the transform may hand back an object that exists elsewhere: the model edits its own copy)
         for k, f in kw.items():
             r = f(getattr(b, k))
             if r is not MISSING:
